@@ -17,17 +17,17 @@ run_mut() { # prop file sed
   ./check "$1" --repo "$D" --replays /tmp/rp-selftest --evidence /tmp/ev-selftest.json 2>&1 | grep VIOLATION
   rm -rf "$D"
 }
-while IFS='§' read -r p f e want; do
+while IFS=$'\x1f' read -r p f e want; do
   case "$p" in \#*|"") continue;; esac
   [ -n "$ONLY" ] && [ "$ONLY" != "$p" ] && continue
   out=$(run_mut "$p" "$f" "$e")
   if echo "$out" | grep -qF "$want"; then echo "caught  $p $f [$e]"; else echo "MISSED  $p $f [$e] :: $(echo "$out" | head -2 | cut -c1-160)"; FAIL=1; fi
-done < selftest/mutants.txt
-while IFS='§' read -r p f e; do
+done < <(LC_ALL=C awk -F'§' -v OFS='\x1f' '{$1=$1; print}' selftest/mutants.txt)
+while IFS=$'\x1f' read -r p f e; do
   case "$p" in \#*|"") continue;; esac
   [ -n "$ONLY" ] && [ "$ONLY" != "$p" ] && continue
   out=$(run_mut "$p" "$f" "$e")
   if [ -z "$out" ]; then echo "quiet   $p $f [$e]"; else echo "FALSE-ALARM $p $f [$e] :: $(echo "$out" | head -2 | cut -c1-200)"; FAIL=1; fi
-done < selftest/harmless.txt
+done < <(LC_ALL=C awk -F'§' -v OFS='\x1f' '{$1=$1; print}' selftest/harmless.txt)
 rm -rf /tmp/rp-selftest /tmp/ev-selftest.json
 exit $FAIL
